@@ -200,7 +200,10 @@ class IeeeJob:
             call = '%s r = %s' % (E.ctype(f.ret), call)
         harness = 'void harness(void) {\n  %s\n  %s;\n}\n' % ('\n  '.join(decl), call)
         bodyless = [g for g in self.replace]
-        return E.unit([f] + self.extra_roots, contracts=contracts, bodyless=(), extra=self.text_extra) + harness
+        txt = E.unit([f] + self.extra_roots, contracts=contracts, bodyless=(), extra=self.text_extra) + harness
+        assumed = sorted(k for k in E.helpers if k.startswith(('phqv_hypot', 'phqv_sqrt', 'phqv_acos')))
+        self.uses_assumed_lib = ', '.join(assumed)
+        return txt
 
     def run(self):
         ob = self.ob
@@ -513,6 +516,13 @@ def run_jobs(check, jobs, on_harness_fail=None):
         if ob.status == 'failed':
             if isinstance(j, IeeeJob):
                 path, tail, harmless = adj[id(j)]
+                if harmless and tail and getattr(j, 'uses_assumed_lib', False):
+                    # the verifier's counterexample was run on the real code and the real code satisfies the contract on
+                    # it; the C text replaces a libm function (sqrt / hypot / acos) by an assumed contract that is weaker
+                    # than the function: the counterexample is an artefact of that abstraction -> undecided, not a violation
+                    ob.status = 'undecided'
+                    ob.detail += ' | counterexample does not reproduce natively and depends on the assumed contract of a libm function (%s): not decided' % j.uses_assumed_lib
+                    continue
                 check.violations.append((ob, path, tail))
             elif on_harness_fail is not None:
                 check.violations.append((ob,) + tuple(on_harness_fail(check, j, ob)))
